@@ -118,4 +118,23 @@ def Box4.Arg.Ok [LT α] (tmax tlowest : α) : Box4.Arg α → Prop
   | .pt _ => True
   | .bx o => Box4.Canon tmax tlowest o
 
+/-! ### range-relative variants (audit C13 W1)
+
+Over an ordered FIELD no element `tmax` bounds every value, so `∀ x, tlowest ≤ x ∧ x ≤ tmax` is unsatisfiable there; what the
+`extendBy` chain really needs is only that the coordinates actually added lie within the type bounds. -/
+
+/-- every coordinate of `p` lies within the type bounds -/
+def V3.InRange [LE α] (tmax tlowest : α) (p : V3 α) : Prop :=
+  (tlowest ≤ p.x ∧ p.x ≤ tmax) ∧ (tlowest ≤ p.y ∧ p.y ≤ tmax) ∧ (tlowest ≤ p.z ∧ p.z ≤ tmax)
+
+/-- API-reachable box whose stored coordinates lie within the type bounds: non-inverted with `min`, `max` in range,
+or the canonical empty box -/
+def Box3.CanonR [LE α] [LT α] (tmax tlowest : α) (b : Box3 α) : Prop :=
+  (¬ Box3.Inverted b ∧ V3.InRange tmax tlowest b.min ∧ V3.InRange tmax tlowest b.max) ∨ b = Box3.canonEmpty tmax tlowest
+
+/-- arguments of `extendBy` whose coordinates lie within the type bounds -/
+def Box3.Arg.OkR [LE α] [LT α] (tmax tlowest : α) : Box3.Arg α → Prop
+  | .pt p => V3.InRange tmax tlowest p
+  | .bx o => Box3.CanonR tmax tlowest o
+
 end ImathVerif
